@@ -296,6 +296,7 @@ class Interp:
         self.n_retry_ok = 0
         self.linearize_uniform = True
         self.lazy_merge = True
+        self.loop_hook = None       # callable(I, node, cond, body) -> True if the harness handled the loop itself
         self.uniform_syms = set()
         self.nomerge = set()
         self.havocs = []
@@ -442,6 +443,9 @@ class Interp:
             r = self._merged(thunk, node)
             ctx.trace.append(("M", True))
             return r
+        except (BreakEx, ContinueEx, ReturnEx):
+            ctx.trace.append(("M", True))      # a successful merge whose common exit is break/continue/return
+            raise
         except CannotMerge:
             ctx.trace.append(("M", False))
             return thunk()
@@ -857,6 +861,8 @@ class Interp:
             self.rvalue(n)
 
     def _loop(self, n, cond, inc, body):
+        if self.loop_hook is not None and self.loop_hook(self, n, cond, body):
+            return
         it = 0
         symbolic_iters = 0
         while True:
